@@ -623,13 +623,21 @@ func (f *fragment) row(rowID uint64) *Row {
 // (updating the cache).
 func (f *fragment) unprotectedRow(rowID uint64) *Row {
 	r, ok := f.rowCache.Fetch(rowID)
-	if ok && r != nil {
-		return r
+	if !ok || r == nil {
+		r = f.rowFromStorage(rowID)
+		f.rowCache.Add(rowID, r)
 	}
 
-	row := f.rowFromStorage(rowID)
-	f.rowCache.Add(rowID, row)
-	return row
+	// Hand out a private Row over the cached data. The cached object itself
+	// must not escape: a caller that writes to the row it received (SetBit,
+	// Merge) would otherwise change what every later reader of this row gets.
+	// The segments are marked read-only, so a write clones the bitmap first.
+	out := &Row{segments: make([]rowSegment, len(r.segments))}
+	copy(out.segments, r.segments)
+	for i := range out.segments {
+		out.segments[i].writable = false
+	}
+	return out
 }
 
 // rowFromStorage clones a row data out of fragment storage and returns it as a
